@@ -108,6 +108,7 @@ func runC07(c *Ctx) {
 		"C07.1 a services row is inserted only below a successful nodes lookup; a checks row only below a successful nodes lookup and, when it names a service, a successful services lookup",
 		"C07.2 the node-row deleter looks up and deletes the node's services, checks and coordinates on every successful path; the service-row deleter does so for the service's checks and reaches the mesh-topology, kind-service-names, gateway and virtual-IP cleanups",
 		"C07.3 on every successful local-peer path to a services insert the service name is recorded in kind-service-names; connect proxies / native services pass through the mesh-topology maintainer",
+		"C07.3.kind-cleanup every local connect-proxy / connect-native deregistration looks up the remaining connect instances of its connect name and removes the connect-enabled kind name when none remain",
 		"C07.4 the only writer of table usage is reached solely from txn.Commit",
 		"C07.5 virtual-IP bookkeeping is paired: a freed address is removed from the free list on the path that assigns it, the counter is re-inserted when it is advanced, and releasing an assignment puts the address on the free list",
 		"C07.6 read-modify-write of an aggregated row inserts an object derived from the row it read (mesh-topology Refs)",
@@ -455,6 +456,134 @@ func runC07(c *Ctx) {
 	}
 	r.Floor("C07.3.kind-names", 1)
 	r.Floor("C07.3.topology", 1)
+
+	// ---- C07.3.kind-cleanup: the deregistration side. Whenever a local connect proxy / native
+	// instance is removed, the remaining connect instances of its connect name are queried, and
+	// when none remain the connect-enabled kind name is removed. (Whether another instance of the
+	// deleted service's own name remains is a different question: proxies of several names can
+	// serve one destination.)
+	for _, f := range p.SrcFuncs(statePkg) {
+		if f.Parent() != nil {
+			continue
+		}
+		var cleanup, query []ssa.Instruction
+		delSvc := false
+		var delInstr ssa.Instruction
+		for _, b := range f.Blocks {
+			for _, in := range b.Instrs {
+				if op := core.AsMemdbOp(in); op != nil && op.Op == "Delete" && op.TableKnown && op.Table == tblServices {
+					delSvc = true
+					delInstr = in
+				}
+				if ci, ok := in.(ssa.CallInstruction); ok {
+					if g := ci.Common().StaticCallee(); g != nil {
+						switch {
+						case g.Name() == "cleanupKindServiceName":
+							cleanup = append(cleanup, in)
+						case readsTable(p, g, tblServices, "connect", 2) && !mayWrite(p, g) && g.Signature.Results().Len() == 2 && core.ShortType(g.Signature.Results().At(0).Type()) == "bool":
+							query = append(query, in)
+						}
+					}
+				}
+			}
+		}
+		if !delSvc || len(cleanup) == 0 {
+			continue
+		}
+		name := core.FuncName(f)
+		_, peerNE := emptyStringEdges(f, isPeerValue)
+		cut := map[core.Edge]bool{}
+		for e := range peerNE {
+			cut[e] = true
+		}
+		nNative := 0
+		for _, b := range f.Blocks {
+			for _, in := range b.Instrs {
+				ld, ok := in.(*ssa.UnOp)
+				if !ok || ld.Op != token.MUL || core.AccessOf(ld).LastField() != "Native" {
+					continue
+				}
+				_, fe := core.CondEdges(ld)
+				for _, e := range fe {
+					cut[e] = true
+					nNative++
+				}
+			}
+		}
+		if len(query) == 0 || nNative == 0 {
+			r.Violate("C07.3.kind-cleanup", name, p.FuncPos(f), fmt.Sprintf("the service deleter removes connect-enabled kind names without asking whether connect instances remain (query=%d, connect test=%d)", len(query), nNative))
+			continue
+		}
+		mf := &core.MustFlow{F: f, Start: delInstr, Cut: func(b *ssa.BasicBlock, si int) bool { return cut[core.Edge{From: b, Succ: si}] },
+			Gen: func(in ssa.Instruction) []string {
+				for _, q := range query {
+					if in == q {
+						return []string{"asked"}
+					}
+				}
+				return nil
+			}}
+		mf.Run()
+		bad := ""
+		for _, rt := range core.Returns(f) {
+			if core.ClassifyReturn(rt) == core.RetFailure {
+				continue
+			}
+			if s, ok := mf.At(rt); ok && !s["asked"] {
+				bad = p.Pos(rt.Pos())
+			}
+		}
+		// below "no connect instance remains", the kind name is removed on every successful path
+		bad2 := ""
+		for _, q := range query {
+			var okV ssa.Value
+			if v, isV := q.(ssa.Value); isV && v.Referrers() != nil {
+				for _, rr := range *v.Referrers() {
+					if ex, ok := rr.(*ssa.Extract); ok && ex.Index == 0 {
+						okV = ex
+					}
+				}
+			}
+			if okV == nil {
+				bad2 = "result of the query is not used"
+				continue
+			}
+			_, fe := core.CondEdges(okV)
+			if len(fe) == 0 {
+				bad2 = "result of the query does not decide a branch"
+			}
+			for _, e := range fe {
+				mf2 := &core.MustFlow{F: f, Start: e.From.Instrs[len(e.From.Instrs)-1],
+					Cut: func(b *ssa.BasicBlock, si int) bool { return b == e.From && si != e.Succ },
+					Gen: func(in ssa.Instruction) []string {
+						for _, cl := range cleanup {
+							if in == cl {
+								return []string{"cleaned"}
+							}
+						}
+						return nil
+					}}
+				mf2.Run()
+				for _, rt := range core.Returns(f) {
+					if core.ClassifyReturn(rt) == core.RetFailure || !core.EdgeDominates(e.From, e.Succ, rt.Block()) && !reachesBlock(e.From.Succs[e.Succ], rt.Block(), nil) {
+						continue
+					}
+					if s, ok := mf2.At(rt); ok && !s["cleaned"] {
+						bad2 = "a successful return at " + p.Pos(rt.Pos()) + " is reachable below 'no connect instance remains' without removing the kind name"
+					}
+				}
+			}
+		}
+		switch {
+		case bad != "":
+			r.Violate("C07.3.kind-cleanup", name, p.FuncPos(f), "a local connect proxy / connect-native instance can be deregistered (successful return at "+bad+") without the remaining connect instances of its connect name being looked up: when it was the last one, the connect-enabled kind name and the gateways' wildcard links stay behind, so the derived tables differ from what the registrations give")
+		case bad2 != "":
+			r.Violate("C07.3.kind-cleanup", name, p.FuncPos(f), bad2)
+		default:
+			r.Hold("C07.3.kind-cleanup", name, p.FuncPos(f), "every local connect deregistration asks for remaining connect instances and removes the kind name when none remain")
+		}
+	}
+	r.Floor("C07.3.kind-cleanup", 1)
 
 	// ---- C07.4 usage
 	commitFn := p.Func(statePkg, "(*txn).Commit")
